@@ -129,6 +129,27 @@ def family_bins(tier, seed, n=None):
                 d["g"] = rnd.choice([0, 1])
             ops.append({"op": "sample", "inst": 1, "vals": d})
         out.append({"id": "bins/%s/%d" % ("core" if t < n // 2 else "s%d" % seed, t), "shapes": {"S": shape}, "ops": ops})
+    # (a) ONE bins specification object shared by two coverpoints of a covergroup and by every instance of the class
+    # (b) a covergroup that samples OBJECTS: different objects are handed over in turn
+    for t in range(6 if tier == "quick" else 60):
+        rnd = random.Random(7800 + t + (0 if t < 3 else 1000 * seed))
+        w = rnd.choice([3, 4])
+        cp, lo, hi = cp_shape(rnd, w, False)
+        if not cp.get("bins") or t % 3 == 0:
+            cp["bins"] = [{"name": "ba", "kind": "array", "n": rnd.choice([2, 3, 4]), "ranges": [[0, (1 << w) - 1]]},
+                          {"name": "bb", "kind": "bin", "ranges": [[1, 2]]}]
+            cp.pop("abm", None)
+        cp2 = dict(cp, name="cq", bins_of=cp["name"])
+        vars_ = {"a": {"w": w}}
+        shape = {"cls": "CGS", "vars": vars_, "cps": [cp, cp2], "share_bins": True}
+        if t % 2 == 1:
+            shape["objsample"] = 2 + t % 3
+        vals = list(range(0, 1 << w))
+        ops = [{"op": "new", "shape": "S"}, {"op": "sweep", "inst": 1, "seq": [{"a": v} for v in vals]}, {"op": "new", "shape": "S"}]
+        for k_ in range(8):
+            ops.append({"op": "sample", "inst": 1 + k_ % 2, "vals": {"a": rnd.choice(vals)}})
+        ops.append({"op": "sweep", "inst": 2, "seq": [{"a": v} for v in vals]})
+        out.append({"id": "bins/shared/%s/%d" % ("obj" if t % 2 == 1 else "val", t), "shapes": {"S": shape}, "ops": ops})
     # enum coverpoints
     for t, enums in enumerate([[0, 1, 2], [5, -1, 7, 3], [1, 2, 4, 8]]):
         cp = {"name": "cp", "var": "e"}
